@@ -87,6 +87,21 @@ def h_lltable(c, np, cla):
     for k, cl in enumerate(c["clusters"]):
         model.clusters[k].train_inverse = np.array(cl["theta"], dtype=np.float64)
         model.clusters[k].stacked_data_mean = np.array(cl["mu"], dtype=np.float64)
+        if cl.get("stale"):
+            # a history: this cluster object was scored before with ANOTHER precision matrix, whose cached
+            # quantities are still attached (as after shallow/deep copies or a replaced MRF)
+            other = np.eye(n) * 3.0
+            model.clusters[k].inverse_covariance = other
+            model.clusters[k].log_determinant = float(n * np.log(3.0))
+    if c.get("evaluate_twice"):
+        # ... or the table function itself ran on the same model object before the MRFs were replaced
+        saved = [model.clusters[k].train_inverse for k in range(K)]
+        for k in range(K):
+            model.clusters[k].train_inverse = np.eye(n) * (2.0 + k)
+        with np.errstate(all="ignore"):
+            likelihood.all_points_all_clusters_log_likelihood(model, data)
+        for k in range(K):
+            model.clusters[k].train_inverse = saved[k]
     with np.errstate(all="ignore"):
         table = likelihood.all_points_all_clusters_log_likelihood(model, data)
         point = [[float(likelihood.point_log_likelihood(data[p], model.clusters[k], W, N)) for k in range(K)]
